@@ -138,39 +138,41 @@ Definition is_sum (r : redop) : bool := match r with RSum => true | _ => false e
 
 (** ** comparison with floating-point results *)
 Definition eps40 : Q := 1 # (2 ^ 40).
+(** results computed or stored in single precision (float32 inputs) *)
+Definition eps20 : Q := 1 # (2 ^ 20).
 
-Definition close (M a b : Q) : bool := Qle_bool (Qabs (a - b)) (M * eps40).
+Definition close (eps M a b : Q) : bool := Qle_bool (Qabs (a - b)) (M * eps).
 
 Definition mag3 (a b c : list Q) : Q := Qmax (qmaxabs a) (Qmax (qmaxabs b) (qmaxabs c)).
 
 (** [inp]: the input column, [expect]: exact result, [obs]: float result *)
-Definition col_close (inp expect obs : list Q) : bool :=
+Definition col_close (eps : Q) (inp expect obs : list Q) : bool :=
   let M := mag3 inp expect obs in
   Nat.eqb (length expect) (length obs) &&
-  forallb (fun p => close M (fst p) (snd p)) (combine expect obs).
+  forallb (fun p => close eps M (fst p) (snd p)) (combine expect obs).
 
 Definition col_exact (expect obs : list Q) : bool := list_eqb Qeq_bool expect obs.
 
-Fixpoint cols_close (inps expects obss : list (list Q)) : bool :=
+Fixpoint cols_close (eps : Q) (inps expects obss : list (list Q)) : bool :=
   match inps, expects, obss with
   | [], [], [] => true
-  | i :: ti, e :: te, o :: to => col_close i e o && cols_close ti te to
+  | i :: ti, e :: te, o :: to => col_close eps i e o && cols_close eps ti te to
   | _, _, _ => false
   end.
 
 (** coordinate columns: the first two are block centres (passed through
     unchanged by the code, so compared exactly) when [center] *)
-Definition coords_close (center : bool) (inps expects obss : list (list Q)) : bool :=
+Definition coords_close (eps : Q) (center : bool) (inps expects obss : list (list Q)) : bool :=
   if center then
     match expects, obss with
     | e0 :: e1 :: te, o0 :: o1 :: to =>
-        col_exact e0 o0 && col_exact e1 o1 && cols_close (skipn 2 inps) te to
+        col_exact e0 o0 && col_exact e1 o1 && cols_close eps (skipn 2 inps) te to
     | _, _ => false
     end
-  else cols_close inps expects obss.
+  else cols_close eps inps expects obss.
 
 (** ** decidable form of the statement of C09, on the observed output *)
-Definition c09_holds (r : redop) (labels : list Z) (coords data : list (list Q))
+Definition c09_holds (epsd epsc : Q) (r : redop) (labels : list Z) (coords data : list (list Q))
     (weights : option (list (list Q))) (centres : list Q * list Q) (center drop : bool)
     (obs_coords obs_data : list (list Q)) : bool :=
   let red := red_of r in
@@ -179,18 +181,18 @@ Definition c09_holds (r : redop) (labels : list Z) (coords data : list (list Q))
   let nout := Qlen (ukeys labels) in
   (* one entry per non-empty block, in ascending block order, reduced over the members *)
   match weights with
-  | None => cols_close data (map (spec_col red labels) data) obs_data
-  | Some ws => cols_close data (map2 (spec_wcol wred labels) data ws) obs_data
+  | None => cols_close epsd data (map (spec_col red labels) data) obs_data
+  | Some ws => cols_close epsd data (map2 (spec_wcol wred labels) data ws) obs_data
   end &&
   (* a sum reduction conserves the total *)
   (if is_sum r && match weights with None => true | Some _ => false end
    then Nat.eqb (length data) (length obs_data) &&
-        forallb (fun p => close ((nout + 1) * mag3 (fst p) [qsum (fst p)] (snd p))
+        forallb (fun p => close epsd ((nout + 1) * mag3 (fst p) [qsum (fst p)] (snd p))
                                 (qsum (snd p)) (qsum (fst p)))
                 (combine data obs_data)
    else true) &&
   (* coordinates: same reduction of the members' coordinates, or the centre of that block *)
-  coords_close center cs
+  coords_close epsc center cs
     (let reduced := map (spec_col red labels) cs in
      if center
      then centre_col (fst centres) labels :: centre_col (snd centres) labels :: skipn 2 reduced
@@ -201,8 +203,10 @@ Definition QofD (d : D) : Q := Qred (D2Q d).
 Definition QsofD (l : list D) : list Q := map QofD l.
 Definition QssofD (l : list (list D)) : list (list Q) := map QsofD l.
 
-(** one correspondence case: [obs = None] means the call raised ValueError *)
-Definition c09_case (r : redop) (labels : list Z) (coords data : list (list D))
+(** one correspondence case: [obs = None] means the call raised ValueError;
+    [epsd]/[epsc]: relative tolerance for the data / coordinate columns
+    ([eps40] for double precision, [eps20] when the arrays are float32) *)
+Definition c09_case (epsd epsc : Q) (r : redop) (labels : list Z) (coords data : list (list D))
     (weights : option (list (list D))) (centres : list D * list D) (center drop : bool)
     (obs : option (list (list D) * list (list D))) : verdict :=
   let coordsq := QssofD coords in
@@ -216,9 +220,9 @@ Definition c09_case (r : redop) (labels : list Z) (coords data : list (list D))
       let ocq := QssofD oc in
       let odq := QssofD od in
       mk_verdict
-        (cols_close dataq md odq &&
-         coords_close center (if drop then firstn 2 coordsq else coordsq) mc ocq)
-        (c09_holds r labels coordsq dataq weightsq centresq center drop ocq odq)
+        (cols_close epsd dataq md odq &&
+         coords_close epsc center (if drop then firstn 2 coordsq else coordsq) mc ocq)
+        (c09_holds epsd epsc r labels coordsq dataq weightsq centresq center drop ocq odq)
   | None, Some _ => Vdis     (* the code accepted an input the model rejects *)
   | Some _, None => Vboth    (* a well-formed input must be reduced, not rejected *)
   end.
